@@ -712,3 +712,225 @@ def rename_params_back(model, changed, SIGNATURES) -> list:
             ids.add(old)
             done.append((q, new, old))
     return done
+
+
+# --------------------------------------------------------------------------------------------- moved functions
+def _module_level_defs(mod):
+    return {st.name: st for st in mod.tree.body if isinstance(st, (ast.FunctionDef, ast.AsyncFunctionDef))}
+
+
+def _module_bindings(mod) -> dict:
+    """name -> the top-level statement that binds it (imports, defs, classes, plain assignments; also under `if` / `try` at top level)."""
+    out = {}
+
+    def rec(stmts):
+        for st in stmts:
+            if isinstance(st, (ast.Import, ast.ImportFrom)):
+                for a in st.names:
+                    out.setdefault((a.asname or a.name).split(".")[0], st)
+            elif isinstance(st, (ast.FunctionDef, ast.AsyncFunctionDef, ast.ClassDef)):
+                out.setdefault(st.name, st)
+            elif isinstance(st, (ast.Assign, ast.AnnAssign)):
+                for t in (st.targets if isinstance(st, ast.Assign) else [st.target]):
+                    for x in ast.walk(t):
+                        if isinstance(x, ast.Name):
+                            out.setdefault(x.id, st)
+            elif isinstance(st, (ast.If, ast.Try)):
+                rec(st.body)
+                rec(getattr(st, "orelse", []))
+                for h in getattr(st, "handlers", []):
+                    rec(h.body)
+    rec(mod.tree.body)
+    return out
+
+
+def _free_globals(fn_node) -> set:
+    import builtins
+    import symtable  # noqa: F401  (not used: scoping is approximated below)
+
+    bound = {a.arg for a in ast.walk(fn_node.args) if isinstance(a, ast.arg)}
+    for n in ast.walk(fn_node):
+        if isinstance(n, ast.Name) and isinstance(n.ctx, (ast.Store, ast.Del)):
+            bound.add(n.id)
+        elif isinstance(n, (ast.FunctionDef, ast.AsyncFunctionDef, ast.ClassDef)) and n is not fn_node:
+            bound.add(n.name)
+        elif isinstance(n, ast.arg):
+            bound.add(n.arg)
+        elif isinstance(n, ast.ExceptHandler) and n.name:
+            bound.add(n.name)
+        elif isinstance(n, (ast.Import, ast.ImportFrom)):
+            for a in n.names:
+                bound.add((a.asname or a.name).split(".")[0])
+    return {n.id for n in ast.walk(fn_node) if isinstance(n, ast.Name) and isinstance(n.ctx, ast.Load) and n.id not in bound and not hasattr(builtins, n.id)}
+
+
+def move_functions_back(model, FUNCTIONS, SIGNATURES, BAGS) -> list:
+    """A pinned module-level function `A.f` that is gone from A while another module B of the package defines a module-level `f` with the
+    pinned parameter list and a resembling body, and A imports `f` from B: the function was *moved*.  For the analysis the definition goes
+    back to A (where every rule looks for it): the def is taken out of B, A's import of it is dropped, modules that imported it from B import
+    it from A.  Only when every global the body reads means the same thing in A (bound there by an equal import statement, or importable
+    from B by the import that is added).  Also: a pinned method that became a module-level function of the same module (first parameter =
+    the receiver) and a pinned module-level function that became a @staticmethod go back to where they were.  Returns [(from, to)]."""
+    done = []
+    mods = {k: v for k, v in model.modules.items() if not k.startswith("_typeguard")}
+    cur = model.functions
+    missing = [q for q in FUNCTIONS if q not in cur and not q.startswith("_typeguard") and "<locals>" not in q and "#" not in q]
+    for q in sorted(missing):
+        parts = q.split(".")
+        ps = tuple(SIGNATURES.get(q, ()))
+        bag = set(BAGS.get(q) or ())
+        if parts[0] not in mods:
+            continue
+        A = mods[parts[0]]
+
+        def resembles(node):
+            if not bag:
+                return True
+            b = bag_of(node)
+            return len(b & bag) / max(1, len(b | bag)) >= 0.5
+
+        if len(parts) == 2:
+            name = parts[1]
+            # (1) moved to another module
+            moved = False
+            for bname, B in sorted(mods.items()):
+                if B is A:
+                    continue
+                d = _module_level_defs(B).get(name)
+                if d is None or not ps or tuple(a.arg for a in d.args.posonlyargs + d.args.args) != ps[:len(d.args.posonlyargs + d.args.args)] or not resembles(d):
+                    continue
+                imp = None
+                for st in ast.walk(A.tree):
+                    if isinstance(st, ast.ImportFrom) and st.level == 1 and st.module == bname and any(a.name == name and a.asname in (None, name) for a in st.names):
+                        imp = st
+                if imp is None:
+                    continue
+                ab, bb = _module_bindings(A), _module_bindings(B)
+                need_imports, ok = [], True
+                for g in sorted(_free_globals(d)):
+                    if g == name:
+                        continue
+                    sb = bb.get(g)
+                    sa = ab.get(g)
+                    if sb is None:
+                        ok = False
+                        break
+                    if sa is not None and ast.dump(sa) == ast.dump(sb):
+                        continue  # bound by the same statement in both modules (the same import / the same optional-import block)
+                    if sa is not None and isinstance(sa, (ast.Import, ast.ImportFrom)) and isinstance(sb, (ast.Import, ast.ImportFrom)) and \
+                            {(a.name, a.asname) for a in sa.names if (a.asname or a.name).split(".")[0] == g} == {(a.name, a.asname) for a in sb.names if (a.asname or a.name).split(".")[0] == g} \
+                            and getattr(sa, "module", None) == getattr(sb, "module", None) and getattr(sa, "level", 0) == getattr(sb, "level", 0):
+                        continue
+                    if sa is None and isinstance(sb, (ast.Import, ast.ImportFrom)) and not (isinstance(sb, ast.ImportFrom) and sb.level == 1 and sb.module == parts[0]):
+                        need_imports.append(sb)
+                        continue
+                    if sa is None and isinstance(sb, (ast.FunctionDef, ast.AsyncFunctionDef, ast.ClassDef, ast.Assign, ast.AnnAssign)):
+                        # a B-level definition the body reads: stays in B, A imports it (no cycle problem for the analysis)
+                        need_imports.append(ast.ImportFrom(module=bname, names=[ast.alias(name=g, asname=None)], level=1))
+                        continue
+                    ok = False
+                    break
+                if not ok:
+                    continue
+                # do it
+                B.tree.body = [st for st in B.tree.body if st is not d]
+                keep = [a for a in imp.names if a.name != name]
+                for parent in ast.walk(A.tree):
+                    for fld in ("body", "orelse", "finalbody"):
+                        blk = getattr(parent, fld, None)
+                        if isinstance(blk, list) and any(x is imp for x in blk):
+                            i = next(k for k, x in enumerate(blk) if x is imp)
+                            new = ([imp] if keep else []) + [ast.copy_location(copy.deepcopy(x), imp) for x in need_imports]
+                            if parent is A.tree:
+                                new = new + [d]
+                            blk[i:i + 1] = new or ([ast.copy_location(ast.Pass(), imp)] if parent is not A.tree else [])
+                            if parent is not A.tree:
+                                A.tree.body.append(d)
+                imp.names = keep or imp.names
+                # B (and every other module) that still reads the name gets it from A
+                for cname, C in mods.items():
+                    if C is A:
+                        continue
+                    for st in ast.walk(C.tree):
+                        if isinstance(st, ast.ImportFrom) and st.level == 1 and st.module == bname and any(a.name == name for a in st.names):
+                            if len(st.names) == 1:
+                                st.module = parts[0]
+                            else:
+                                st.names = [a for a in st.names if a.name != name]
+                                C.tree.body.insert(0, ast.copy_location(ast.ImportFrom(module=parts[0], names=[ast.alias(name=name, asname=None)], level=1), st))
+                uses_in_b = any(isinstance(x, ast.Name) and x.id == name for x in ast.walk(B.tree))
+                if uses_in_b and not any(isinstance(st, ast.ImportFrom) and st.module == parts[0] and any(a.name == name for a in st.names) for st in ast.walk(B.tree)):
+                    B.tree.body.insert(0, ast.ImportFrom(module=parts[0], names=[ast.alias(name=name, asname=None)], level=1))
+                for t_ in (A.tree, B.tree):
+                    ast.fix_missing_locations(t_)
+                done.append((f"{bname}.{name}", q))
+                moved = True
+                break
+            if moved:
+                continue
+            # (3) became a @staticmethod of a class of the same module
+            for st in A.tree.body:
+                if not isinstance(st, ast.ClassDef):
+                    continue
+                for d in list(st.body):
+                    if isinstance(d, ast.FunctionDef) and d.name == name and any(norm_name(x) == "staticmethod" for x in d.decorator_list) \
+                            and tuple(a.arg for a in d.args.posonlyargs + d.args.args) == ps and resembles(d):
+                        if name in _module_bindings(A):
+                            continue
+                        st.body = [x for x in st.body if x is not d] or [ast.Pass()]
+                        d.decorator_list = [x for x in d.decorator_list if norm_name(x) != "staticmethod"]
+                        A.tree.body.insert(A.tree.body.index(st), d)
+                        kname = st.name
+                        for cname, C in mods.items():
+                            for n in ast.walk(C.tree):
+                                if isinstance(n, ast.Call) and isinstance(n.func, ast.Attribute) and n.func.attr == name and isinstance(n.func.value, ast.Name) \
+                                        and n.func.value.id in (kname, "cls", "self", "mcs"):
+                                    if C is A:
+                                        n.func = ast.copy_location(ast.Name(id=name, ctx=ast.Load()), n.func)
+                        ast.fix_missing_locations(A.tree)
+                        done.append((f"{parts[0]}.{kname}.{name}", q))
+        elif len(parts) == 3:
+            # (2) a method that became a module-level function of the same module
+            kname, name = parts[1], parts[2]
+            K = next((st for st in A.tree.body if isinstance(st, ast.ClassDef) and st.name == kname), None)
+            if K is None or any(isinstance(x, ast.FunctionDef) and x.name == name for x in K.body) or not ps or name.startswith("__"):
+                continue
+            cands = [d for d in _module_level_defs(A).values() if d.name.lstrip("_") == name.lstrip("_") and len(d.args.posonlyargs + d.args.args) == len(ps)
+                     and tuple(a.arg for a in d.args.posonlyargs + d.args.args)[1:] == ps[1:] and not d.decorator_list and resembles(d)]
+            if len(cands) != 1:
+                continue
+            d = cands[0]
+            gname = d.name
+            calls = [n for C in mods.values() for n in ast.walk(C.tree) if isinstance(n, ast.Call) and isinstance(n.func, ast.Name) and n.func.id == gname]
+            other_refs = [n for C in mods.values() for n in ast.walk(C.tree) if isinstance(n, ast.Name) and n.id == gname and not any(n is c.func for c in calls)]
+            if other_refs or not calls or any(not c.args or isinstance(c.args[0], ast.Starred) for c in calls) or any(
+                    n is not d and isinstance(n, ast.Call) and isinstance(n.func, ast.Name) and n.func.id == gname and not any(n is x for x in ast.walk(A.tree)) for C in mods.values() for n in ast.walk(C.tree)):
+                continue
+            first = d.args.posonlyargs[0] if d.args.posonlyargs else d.args.args[0]
+            if first.arg != ps[0] and not any(isinstance(x, ast.Name) and x.id == ps[0] for x in ast.walk(d)):
+                old_first = first.arg
+                first.arg = ps[0]
+                for x in ast.walk(d):
+                    if isinstance(x, ast.Name) and x.id == old_first:
+                        x.id = ps[0]
+            elif first.arg != ps[0]:
+                continue
+            A.tree.body = [st for st in A.tree.body if st is not d]
+            d.name = name
+            K.body.append(d)
+            for c in calls:
+                recv = c.args[0]
+                c.func = ast.copy_location(ast.Attribute(value=recv, attr=name, ctx=ast.Load()), c.func)
+                c.args = c.args[1:]
+            ast.fix_missing_locations(A.tree)
+            done.append((f"{parts[0]}.{gname}", q))
+    if done:
+        model._reindex()
+    return done
+
+
+def norm_name(e) -> str:
+    try:
+        return ast.unparse(e)
+    except Exception:  # noqa: BLE001
+        return ""
